@@ -266,7 +266,11 @@ def step (st : St) (toks : List String) : St × List Issue :=
     match parseIState rest with
     | none => (st, [⟨.parse, "S"⟩])
     | some (cur, incons) =>
-      let is : List Issue := if incons != "-" then [⟨.model, s!"trace={st.tno} implementation bookkeeping inconsistent: {incons}"⟩] else []
+      -- an allocator whose transaction journal is still open after an operation returned has changed state that no
+      -- assignment or usage shows: every later Allocate/Realloc/GetOffer is refused (C06: a failed operation leaves
+      -- everything exactly as before; an offer request never changes allocator state)
+      let is : List Issue := if incons == "journal-open" then [⟨.property, s!"C06:journal-left-open-after-operation trace={st.tno}"⟩]
+        else if incons != "-" then [⟨.model, s!"trace={st.tno} implementation bookkeeping inconsistent: {incons}"⟩] else []
       -- model state comparison
       let (st, is) :=
         if st.desync then (st, is) else
